@@ -64,9 +64,9 @@ def P(level="exploration", q=50, t=500, workloads="", assumptions=None, **kw):
 
 
 PROPS = {
-    "C01": P(workloads="mq-conc steady, view, quiesce, teardown-orders, handle-churn, last-sender (plain and futures handles, every receive entry point); Miri slice"),
+    "C01": P(workloads="mq-conc steady, view, quiesce, teardown-orders, handle-churn, last-sender, add-stream-sole (plain and futures handles, every receive entry point); Miri slice"),
     "C02": P(workloads="mq-conc steady, view, quiesce, last-sender with multi-producer stalls (claimed-unpublished slots); Miri slice"),
-    "C03": P(workloads="mq-conc steady, view, remove-stream, wrap-slow-clone with slow consumers and stalls in the writer's scan; quiescent fill counts; Miri slice"),
+    "C03": P(workloads="mq-conc steady, view, remove-stream, wrap-slow-clone, add-stream-sole with slow consumers and stalls in the writer's scan; quiescent fill counts; Miri slice"),
     "C04": P(workloads="mq-conc wrap-slow-clone and view with stalls inside clone / view closure; AddressSanitizer shards; Miri with the data-race detector (broadcast, mpmc single consumer)"),
     "C05": P(q=100, workloads="mq-seq with every teardown permutation, mq-conc teardown-orders / no-receiver / steady, AddressSanitizer shards, Miri with leak checking; one shard exercises the open finding (two streams on a move-out queue)"),
     "C06": P(workloads="quiescent probe after every mq-conc family; dedicated quiesce family"),
@@ -102,14 +102,14 @@ def jobs_for(prop, tier, seed):
     ms, mt = t["miri_seeds"], t["miri_timeout"]
     J = []
     if prop == "C01":
-        J += conc(prop, seed, ["steady", "view", "quiesce", "teardown-orders", "handle-churn", "last-sender"], n, s)
+        J += conc(prop, seed, ["steady", "view", "quiesce", "teardown-orders", "handle-churn", "last-sender", "add-stream-sole"], n, s)
         J.append(miri(prop, seed, "steady", ["conc", "--families", "steady,view", "--runs", "2", "--fl", "broadcast"], ms, mt, {"*": "C01,C04,C16"}))
     elif prop == "C02":
         J += conc(prop, seed, ["steady", "view", "quiesce", "last-sender"], n, s,
                   extra=[["--policy", "stall"], [], ["--policy", "yield"]])
         J.append(miri(prop, seed, "steady", ["conc", "--families", "steady", "--runs", "2"], ms, mt, {"*": "C02,C04,C16"}, no_race=True, base=7))
     elif prop == "C03":
-        J += conc(prop, seed, ["steady", "view", "remove-stream", "wrap-slow-clone"], n, s)
+        J += conc(prop, seed, ["steady", "view", "remove-stream", "wrap-slow-clone", "add-stream-sole"], n, s)
         J.append(miri(prop, seed, "steady", ["conc", "--families", "steady,wrap-slow-clone", "--runs", "2", "--fl", "broadcast"], ms, mt, {"*": "C03,C04,C16"}, base=11))
     elif prop == "C04":
         J += conc(prop, seed, ["wrap-slow-clone", "view", "wrap-slow-clone", "steady"], n - 4, s)
@@ -118,7 +118,7 @@ def jobs_for(prop, tier, seed):
         J.append(miri(prop, seed, "slowclone", ["conc", "--families", "wrap-slow-clone,view", "--runs", "2", "--fl", "broadcast"], ms + 4, mt, {"*": "C04"}, base=13))
     elif prop == "C05":
         J += shard_jobs(prop, seed, ["seq", "--perm-every", "3"], 4, s, "seq")
-        J += conc(prop, seed, ["teardown-orders", "no-receiver", "steady", "last-sender", "handle-churn"], n - 7, s)
+        J += conc(prop, seed, ["teardown-orders", "no-receiver", "steady", "last-sender", "handle-churn", "wrap-slow-clone", "view"], n - 7, s)
         J += conc(prop, seed, ["teardown-orders", "no-receiver"], 2, s, label="asan", variant="asan", base=50,
                   tool_props={"*": "C05,C04,C16"})
         J += shard_jobs(prop, seed, ["seq", "--p6", "--cfgs", "p6", "--perm-every", "0"], 1, 4, "seq-two-streams-on-mpmc", base=70)
